@@ -189,7 +189,7 @@ func resultVar(s Site, want func(types.Type) bool) (types.Object, bool) {
 	info := s.F.Info()
 	switch n := s.Node.(type) {
 	case *ast.AssignStmt:
-		if len(n.Rhs) == 1 && ast.Unparen(n.Rhs[0]) == s.Call {
+		if len(n.Rhs) == 1 && ast.Unparen(n.Rhs[0]) == s.real() {
 			for _, l := range n.Lhs {
 				o := objOf(info, l)
 				if o != nil && want(o.Type()) {
@@ -199,7 +199,7 @@ func resultVar(s Site, want func(types.Type) bool) (types.Object, bool) {
 			return nil, false
 		}
 		for i, r := range n.Rhs {
-			if ast.Unparen(r) == s.Call && i < len(n.Lhs) {
+			if ast.Unparen(r) == s.real() && i < len(n.Lhs) {
 				o := objOf(info, n.Lhs[i])
 				if o != nil && want(o.Type()) {
 					return o, true
@@ -210,7 +210,7 @@ func resultVar(s Site, want func(types.Type) bool) (types.Object, bool) {
 		if gd, ok := n.Decl.(*ast.GenDecl); ok {
 			for _, sp := range gd.Specs {
 				vs := sp.(*ast.ValueSpec)
-				if len(vs.Values) == 1 && ast.Unparen(vs.Values[0]) == s.Call {
+				if len(vs.Values) == 1 && ast.Unparen(vs.Values[0]) == s.real() {
 					for _, nm := range vs.Names {
 						o := info.Defs[nm]
 						if o != nil && want(o.Type()) {
